@@ -134,6 +134,8 @@ def check_surface(case, ctx):
         r, sc = R.point(us)
         got = T.evaluate_single((float(us[1]), float(us[0])))
         ctx.check(ref.vec_close(got, r, sc), "transpose-evaluation", "T(v,u) = %r but S(u,v) = %r at (u,v) = %r" % (got, ref.fl(r), [float(x) for x in us]))
+        got0 = T.derivatives(float(us[1]), float(us[0]), order=0)[0][0]          # the point read as the zeroth derivative
+        ctx.check(ref.vec_close(got0, r, sc), "transpose-evaluation", "T.derivatives(v, u, 0)[0][0] = %r but S(u,v) = %r at (u,v) = %r" % (got0, ref.fl(r), [float(x) for x in us]))
     o3 = build.make(d)
     if case["u"] % 2:
         _ = o3.ctrlpts, (o3.weights if o3.rational else None), o3.ctrlpts2d          # the views were looked at before
